@@ -124,7 +124,7 @@ inductive P2SC where
   | needPicks                  -- the scripted `random.choice` stream ran dry inside a repair loop
   | bad (why : String)         -- inputs outside the modelled domain
   | done (viaFallback : Bool) (counts : List Int)
-  deriving Repr
+  deriving Repr, DecidableEq
 
 /-- `probs_to_sample_count(probs, count)`.
 `ps` probabilities (in key order), `ns` the values returned by `np.random.normal` (one per key),
@@ -313,7 +313,7 @@ structure SamplesIn where
 inductive SamplesOut where
   | error (e : String)
   | result (n : Nat) (phys logical : Rat) (s : Option St)
-  deriving Repr
+  deriving Repr, DecidableEq
 
 def samplesPipeline (i : SamplesIn) (ops : List Shot) : SamplesOut :=
   match computeSamples i.maxSamples i.maxShots with
